@@ -183,6 +183,17 @@ def leak_site(path):
     return site_of(path)
 
 
+MLT_SITE = "search:moreLikeThis.like:field-named-like-a-search-option"
+
+
+def token_leak_site(cs, tok):
+    """the normalised site (leak_site) of the first input leaf that holds the planted token"""
+    for p, leaf in leaves(cs.tree):
+        if isinstance(leaf, str) and tok in leaf:
+            return leak_site(p)
+    return None
+
+
 def oracle_c01(tables, seed, tier, deep):
     n = 2500 if (tier == "thorough" or deep) else 250
     cases = corpus_cases() + grammar_cases(seed, n)
@@ -366,6 +377,10 @@ def oracle_c05(tables, seed, tier, deep):
             checked += 1
             dist[role] += 1
             if got != exp or type(got) != type(exp):
+                if got == leaf and leak_site(p) == MLT_SITE:
+                    # the literal is not replaced at all: the recorded defect of C01 (same call site), not a wrong placeholder
+                    viol.append({"site": "class:kept:" + MLT_SITE, "detail": "leaf of class %s kept as it is (%r)" % (role, got), "cfg": c.s(), "cli_flags": c.cli(), "input": cs.text, "output": t})
+                    continue
                 viol.append({"site": "class:%s:%s" % (role, site_of(p)), "detail": "leaf of class %s became %r, expected %r" % (role, got, exp), "cfg": c.s(), "cli_flags": c.cli(), "input": cs.text, "output": t})
             if role == "X":
                 st_in, st_out = get_path(cs.tree, p[:-1] + ("subType",)), get_path(o, p[:-1] + ("subType",))
@@ -1413,7 +1428,8 @@ def oracle_c10(tables, seed, tier, deep):
             viol.append({"site": "fail-open", "detail": "with unusable key material the output is not the placeholder-mode output", "cfg": c.s(), "input": cs.text, "output": tb})
         for tok, role in cs.roles.items():
             if role in SENSITIVE_ROLES and tb and tok in tb:
-                viol.append({"site": "fail-open:plaintext", "detail": "sensitive %r emitted in clear when encryption cannot be performed" % tok, "cfg": c.s(), "input": cs.text, "token": tok})
+                ts = token_leak_site(cs, tok)
+                viol.append({"site": "fail-open:plaintext" + (":" + MLT_SITE if ts == MLT_SITE else ""), "detail": "sensitive %r emitted in clear when encryption cannot be performed" % tok, "cfg": c.s(), "input": cs.text, "token": tok})
         op, oe = parse_json(tp), parse_json(te)
         d = shape_diff(op, oe)
         if d:
